@@ -2,6 +2,18 @@
 """Regenerates MANIFEST.json from the table below (kept in one place so it stays valid)."""
 import json
 CLAIMED = {
+ "C01": dict(tech="model checking: deviation-bounded exhaustive exploration of write programs x read programs on a real Conn pair, oracle = list of messages given to the write API",
+             text="Core product role x deflate x WriteBufferSize x size in S(B) x write program enumerated completely; every other dimension (type, pattern, level, toggles, pool, interleaved control writes, further messages, read buffer/program/size, chunking, abandon) explored exhaustively up to the deviation bound. All executions are of the real code.",
+             note="sizes restricted to the boundary set S(B); sequences <= 2 (quick) / 3 (thorough); scripted in-memory transport", ref="§4 C01"),
+ "C02": dict(tech="model checking: same exhaustive write-program exploration, every byte handed to the transport judged by an independent strict RFC 6455/7692 decoder; mask keys traced to a recording random source",
+             text="Every explored write program's wire bytes are decoded by ref/wsref in strict mode in the peer's role and compared with the API-level messages; client mask keys must be fresh windows of the random source drawn during the call; source must be crypto/rand.Reader.",
+             note="crypto/rand quality assumed; compress/flate inflater trusted", ref="§4 C02"),
+ "C03": dict(tech="model checking: deviation-bounded exhaustive exploration of conformant streams from an independent encoder (all fragment compositions, hand-made DEFLATE shapes, flate levels) through every read program; complete lane-wise maskBytes table",
+             text="Streams are produced by ref/wsref + ref/rawdeflate, never by the library; all cut compositions are enumerated for the core, other dimensions deviation-bounded; maskBytes is enumerated completely per lane.",
+             note="2^32 keys covered by lane-wise argument; inflater trusted", ref="§4 C03"),
+ "C08": dict(tech="model checking: exhaustive exploration of control-frame placements in conformant streams on the real reader; complete enumeration of acceptable close codes; replies judged by independent decoder",
+             text="Control frames of 0/1/124/125 bytes at every slot; handler log must equal wire order exactly once, with byte-granular ordering against delivered data; default ping/close replies decoded by ref/wsref; every handler kind failing at every control frame.",
+             note="compressed messages judged at message granularity", ref="§4 C08"),
  "C04": dict(tech="explicit-state model checking: exhaustive enumeration of (protocol state x next-frame header alphabet) on the real reader against an independent RFC 6455 classifier",
              text="Every protocol state reached by a valid prefix x every next frame over the full header alphabet is executed on the real Conn; verdicts come from an independent classifier. Complete product, no sampling.",
              note="ref/wsref classifier written from RFC 6455; don't-care classes listed in DESIGN.md §6; compress/flate inflater trusted", ref="§4 C04"),
